@@ -1373,9 +1373,12 @@ Proof.
   rewrite Htab. simpl. rewrite (tab_find_log _ _ (inv_log _ _ _ Hi) Hin), (erase_wf _ Hwf). reflexivity.
 Qed.
 
+Fixpoint llast (t : Z) (l : list lstep) : Z :=
+  match l with [] => t | st :: r => llast (lstep_time st) r end.
+
 Lemma lsn_sim : forall steps t0 T s s' lo, Inv t0 T s -> lmono T steps -> lsn_run s steps = Some (s', lo) ->
   exists ops bs, mono T ops /\ run s ops = Some (s', bs) /\
-                 lsn_translate (tabof (glog s)) lo = map erase_obs bs.
+                 lsn_translate (tabof (glog s)) lo = map erase_obs bs /\ last_time T ops = llast T steps.
 Proof.
   induction steps as [|st r IH]; intros t0 T s s' lo H Hm Hr.
   - simpl in Hr. inversion Hr. exists [], []. repeat split; reflexivity.
@@ -1385,18 +1388,18 @@ Proof.
     destruct st as [t | t kid]; simpl in Ht, Hm, Es.
     + destruct (current s t t) as [[k sx]|] eqn:Ec; [|discriminate]. inversion Es. subst sx b. clear Es.
       destruct (current_log _ _ _ _ _ _ H Ht Ec) as [Hi _].
-      destruct (IH _ _ _ _ _ Hi Hm Er) as [ops [bs [Hmo [Hrun Htr]]]].
+      destruct (IH _ _ _ _ _ Hi Hm Er) as [ops [bs [Hmo [Hrun [Htr Hlast]]]]].
       exists (OCur 0 t t :: ops), (BCur 0 t k :: bs).
       assert (Hct : (if need_renew s t then t else t) = t) by (destruct (need_renew s t); reflexivity).
       split; [simpl; repeat split; try lia; assumption|].
       split; [simpl; rewrite Ec, Hct, Hrun; reflexivity|].
       cbn [lsn_translate app].
       destruct (translate_cur t0 T s t k s1 (lsn_translate (fold_left (tab_add t) [k_id k] (tabof (glog s))) lo') H Ht Ec) as [Htab Heq].
-      rewrite Heq, Htab, Htr. reflexivity.
+      split; [rewrite Heq, Htab, Htr; reflexivity | simpl; assumption].
     + destruct (get s kid t) as [k0|] eqn:Eg.
       * destruct (current s t t) as [[k sx]|] eqn:Ec; [|discriminate]. inversion Es. subst sx b. clear Es.
         destruct (current_log _ _ _ _ _ _ H Ht Ec) as [Hi _].
-        destruct (IH _ _ _ _ _ Hi Hm Er) as [ops [bs [Hmo [Hrun Htr]]]].
+        destruct (IH _ _ _ _ _ Hi Hm Er) as [ops [bs [Hmo [Hrun [Htr Hlast]]]]].
         exists (OGet 0 kid t :: OCur 0 t t :: ops), (BGet 0 t kid (Some k0) :: BCur 0 t k :: bs).
         assert (Hct : (if need_renew s t then t else t) = t) by (destruct (need_renew s t); reflexivity).
         split; [simpl; repeat split; try lia; assumption|].
@@ -1405,13 +1408,13 @@ Proof.
         destruct (translate_cur t0 T s t k s1 (lsn_translate (fold_left (tab_add t) [k_id k] (tabof (glog s))) lo') H Ht Ec) as [Htab Heq].
         rewrite Heq, Htab, Htr.
         destruct (get_spec _ _ _ _ _ _ H Eg) as [Hid [Hin [_ Hwf]]]. subst kid.
-        rewrite (tab_find_log _ _ (inv_log _ _ _ H) Hin), (erase_wf _ Hwf). reflexivity.
+        rewrite (tab_find_log _ _ (inv_log _ _ _ H) Hin), (erase_wf _ Hwf). split; [reflexivity | simpl; assumption].
       * inversion Es. subst s1 b. clear Es.
-        destruct (IH _ _ _ _ _ (inv_weaken _ _ _ _ H Ht) Hm Er) as [ops [bs [Hmo [Hrun Htr]]]].
+        destruct (IH _ _ _ _ _ (inv_weaken _ _ _ _ H Ht) Hm Er) as [ops [bs [Hmo [Hrun [Htr Hlast]]]]].
         exists (OGet 0 kid t :: ops), (BGet 0 t kid None :: bs).
         split; [simpl; repeat split; try lia; assumption|].
         split; [simpl; rewrite Eg, Hrun; reflexivity|].
-        cbn [lsn_translate app fold_left map]. rewrite Htr. reflexivity.
+        cbn [lsn_translate app fold_left map]. rewrite Htr. split; [reflexivity | simpl; assumption].
 Qed.
 
 Lemma lsn_model_meets_oracle : forall t0 steps s lo, lmono t0 steps ->
@@ -1420,7 +1423,7 @@ Proof.
   intros t0 steps s lo Hm Hh. unfold lsn_history in Hh.
   destruct (new_provider t0) as [s0|] eqn:En; [|discriminate].
   pose proof (new_inv _ _ En) as Hi.
-  destruct (lsn_sim _ _ _ _ _ _ Hi Hm Hh) as [ops [bs [Hmo [Hrun Htr]]]].
+  destruct (lsn_sim _ _ _ _ _ _ Hi Hm Hh) as [ops [bs [Hmo [Hrun [Htr _]]]]].
   assert (Htab : tabof (glog s0) = [(1, t0)]).
   { unfold new_provider, generate_next in En. change (cur empty_state =? max_int) with false in En.
     cbv iota in En. inversion En. reflexivity. }
@@ -1431,4 +1434,190 @@ Lemma lmonob_spec : forall l t, lmonob t l = true <-> lmono t l.
 Proof.
   induction l as [|st r IH]; simpl; intros t; [tauto|].
   rewrite andb_true_iff, Z.leb_le, IH. tauto.
+Qed.
+
+(* ---------- key 1 is known to every observer: NewProvider makes it at t0 ---------- *)
+Definition key_one (t0 : Z) : key := {| k_id := 1; k_val := 1; k_nb := t0; k_na := t0 + key_validity |}.
+
+Lemma model_meets_oracle_ghost : forall t0 ops s bs, mono t0 ops -> history t0 ops = Some (s, bs) ->
+  C12_ok (BCur 0 t0 (key_one t0) :: bs) = true.
+Proof.
+  intros t0 ops s bs Hm Hh. unfold history in Hh.
+  destruct (new_provider t0) as [s0|] eqn:En; [|discriminate].
+  pose proof (new_inv _ _ En) as Hi.
+  assert (Hn : need_renew s0 t0 = false).
+  { destruct (need_renew s0 t0) eqn:E; [|reflexivity].
+    apply (need_renew_spec _ _ _ _ Hi (Z.le_refl t0)) in E.
+    pose proof (inv_gen_le _ _ _ Hi). pose proof (inv_t0 _ _ _ Hi). pose proof renewal_pos. lia. }
+  assert (Hk : head_key s0 = key_one t0).
+  { unfold new_provider, generate_next in En. change (cur empty_state =? max_int) with false in En.
+    cbv iota in En. inversion En. reflexivity. }
+  apply (model_meets_oracle t0 (OCur 0 t0 t0 :: ops) s).
+  - simpl. repeat split; try lia. assumption.
+  - unfold history. rewrite En. simpl. unfold current. rewrite Hn.
+    rewrite (lookup0_cur _ _ _ Hi), Hk, Hh. reflexivity.
+Qed.
+
+(* ---------- ids fit the 16 bits of the cookie field for 65535 days ---------- *)
+Lemma ids_fit_16 : forall t0 ops s bs, mono t0 ops -> history t0 ops = Some (s, bs) ->
+  last_time t0 ops - t0 < 65535 * (key_renewal + 1) ->
+  forall k, In k (glog s) -> 1 <= k_id k < 65536.
+Proof.
+  intros t0 ops s bs Hm Hh Hspan k Hin.
+  destruct (history_inv _ _ _ _ Hm Hh) as [Hi _].
+  destruct (rotation_rate _ _ _ _ Hm Hh) as [_ Hr].
+  destruct (inv_key_facts _ _ _ _ Hi Hin) as [_ [Hid _]].
+  assert (cur s - 1 < 65535) by (pose proof renewal_pos; nia). lia.
+Qed.
+
+(* ---------- the consequence clause on listener histories of the model ---------- *)
+Lemma lsn_run_inv : forall steps t0 T s s' lo, Inv t0 T s -> lmono T steps -> lsn_run s steps = Some (s', lo) ->
+  Inv t0 (llast T steps) s' /\ incl (glog s) (glog s') /\ T <= llast T steps.
+Proof.
+  intros steps t0 T s s' lo H Hm Hr.
+  destruct (lsn_sim _ _ _ _ _ _ H Hm Hr) as [ops [bs [Hmo [Hrun [_ Hlast]]]]].
+  destruct (run_inv _ _ _ _ _ _ H Hmo Hrun) as [Hi [_ [_ Hl]]].
+  rewrite Hlast in Hi. split; [assumption|]. split; [assumption|].
+  rewrite <- Hlast. apply mono_last. assumption.
+Qed.
+
+Lemma lsn_handout : forall t0 T s st s2 t req ids K, Inv t0 T s -> T <= lstep_time st ->
+  lsn_step s st = Some (s2, LObs t req true ids) -> In K ids ->
+  exists k, k_id k = K /\ In k (glog s2) /\ Inv t0 t s2 /\ k_nb k <= t /\ t - k_nb k <= key_renewal /\
+            key_wf k /\ t = lstep_time st.
+Proof.
+  intros t0 T s st s2 t req ids K H Ht Hs Hin.
+  assert (Hgen : forall tt k sx, T <= tt -> current s tt tt = Some (k, sx) ->
+                 In k (glog sx) /\ Inv t0 tt sx /\ k_nb k <= tt /\ tt - k_nb k <= key_renewal /\ key_wf k).
+  { intros tt k sx Htt Hc. destruct (current_log _ _ _ _ _ _ H Htt Hc) as [Hi [Hink [Hwf _]]].
+    destruct (current_step _ _ _ _ _ _ _ H Htt (Z.le_refl tt) Hc) as [_ [_ [Hv [Ha _]]]].
+    assert (Hct : cur_time s tt tt = tt) by (unfold cur_time; destruct (need_renew s tt); reflexivity).
+    rewrite Hct in Hv, Ha. repeat split; try assumption; lia. }
+  destruct st as [tt | tt kid]; simpl in Ht, Hs.
+  - destruct (current s tt tt) as [[k sx]|] eqn:Ec; [|discriminate]. inversion Hs. subst. clear Hs.
+    destruct Hin as [Hin | []]. subst K.
+    destruct (Hgen _ _ _ Ht Ec) as [H1 [H2 [H3 [H4 H5]]]]. exists k. repeat split; assumption.
+  - destruct (get s kid tt) as [k0|]; [|discriminate].
+    destruct (current s tt tt) as [[k sx]|] eqn:Ec; [|discriminate]. inversion Hs. subst. clear Hs.
+    destruct Hin as [Hin | []]. subst K.
+    destruct (Hgen _ _ _ Ht Ec) as [H1 [H2 [H3 [H4 H5]]]]. exists k. repeat split; assumption.
+Qed.
+
+Lemma lsn_cookie_lifetime : forall t0 steps1 s1 lo1 st s2 t req ids K steps2 s3 lo2 t',
+  lmono t0 steps1 -> lsn_history t0 steps1 = Some (s1, lo1) -> llast t0 steps1 <= lstep_time st ->
+  lsn_step s1 st = Some (s2, LObs t req true ids) -> In K ids ->
+  lmono t steps2 -> lsn_run s2 steps2 = Some (s3, lo2) -> llast t steps2 <= t' ->
+  exists g, g <= t <= g + key_renewal /\
+    (t' <= t + two_days ->
+       forall s' tt rq ans ids', lsn_step s3 (LReq t' K) = Some (s', LObs tt rq ans ids') -> ans = true) /\
+    (g + key_validity < t' -> lsn_step s3 (LReq t' K) = Some (s3, LObs t' (Some K) false [])).
+Proof.
+  intros t0 steps1 s1 lo1 st s2 t req ids K steps2 s3 lo2 t' Hm1 Hh Hl1 Hs HK Hm2 Hr Hl2.
+  unfold lsn_history in Hh. destruct (new_provider t0) as [s0|] eqn:En; [|discriminate].
+  destruct (lsn_run_inv _ _ _ _ _ _ (new_inv _ _ En) Hm1 Hh) as [Hi1 _].
+  destruct (lsn_handout _ _ _ _ _ _ _ _ _ Hi1 Hl1 Hs HK) as [k [Hid [Hin [Hi2 [Hnb [Hage [Hwf _]]]]]]].
+  destruct (lsn_run_inv _ _ _ _ _ _ Hi2 Hm2 Hr) as [Hi3 [Hincl Hle]].
+  assert (Hin3 : In k (glog s3)) by (apply Hincl; assumption).
+  unfold key_wf in Hwf. pose proof validity_val as Hv. pose proof two_days_val as H2d.
+  exists (k_nb k). split; [lia|]. subst K. split.
+  - intros Hle' s' tt rq ans ids' Hstep. simpl in Hstep.
+    rewrite (get_live _ _ _ t' k Hi3 Hl2 Hin3) in Hstep; [|lia].
+    destruct (current s3 t' t') as [[kk sx]|]; [|discriminate]. inversion Hstep. reflexivity.
+  - intros Hgt. simpl. rewrite (get_dead _ _ _ t' k Hi3 Hin3); [reflexivity | lia].
+Qed.
+
+(* ---------- soundness of the listener oracle: what C12_lsn_ok = true says about the
+   observations themselves ---------- *)
+Fixpoint tab_after (tab : list (Z * Z)) (l : list lobs) : list (Z * Z) :=
+  match l with
+  | [] => tab
+  | LObs t _ _ ids :: r => tab_after (fold_left (tab_add t) ids tab) r
+  end.
+
+Lemma translate_app : forall l1 l2 tab,
+  lsn_translate tab (l1 ++ l2) = lsn_translate tab l1 ++ lsn_translate (tab_after tab l1) l2.
+Proof.
+  induction l1 as [|[t req ans ids] r IH]; intros l2 tab; [reflexivity|].
+  simpl. rewrite IH, <- !app_assoc. reflexivity.
+Qed.
+
+Lemma tab_add_stable : forall t tab id K g, tab_find K tab = Some g -> tab_find K (tab_add t tab id) = Some g.
+Proof.
+  intros t tab id K g H. unfold tab_add. destruct (tab_find id tab) eqn:E; [assumption|].
+  simpl. destruct (id =? K) eqn:E2; [apply Z.eqb_eq in E2; subst; congruence | assumption].
+Qed.
+
+Lemma tab_fold_stable : forall ids t tab K g, tab_find K tab = Some g ->
+  tab_find K (fold_left (tab_add t) ids tab) = Some g.
+Proof.
+  induction ids as [|id r IH]; intros t tab K g H; [assumption|].
+  simpl. apply IH. apply tab_add_stable. assumption.
+Qed.
+
+Lemma tab_fold_found : forall ids t tab K, In K ids -> exists g, tab_find K (fold_left (tab_add t) ids tab) = Some g.
+Proof.
+  induction ids as [|id r IH]; intros t tab K Hin; [contradiction|].
+  simpl. destruct Hin as [Heq | Hin]; [|apply IH; assumption]. subst id.
+  assert (H : exists g, tab_find K (tab_add t tab K) = Some g).
+  { unfold tab_add. destruct (tab_find K tab) eqn:E; [exists z; assumption|].
+    exists t. simpl. rewrite Z.eqb_refl. reflexivity. }
+  destruct H as [g Hg]. exists g. apply tab_fold_stable. assumption.
+Qed.
+
+Lemma translate_in_get : forall l tab t' K ans ids' g, In (LObs t' (Some K) ans ids') l ->
+  tab_find K tab = Some g ->
+  In (BGet 0 t' K (if ans then Some (tab_key K g) else None)) (lsn_translate tab l).
+Proof.
+  induction l as [|[t req a ids] r IH]; intros tab t' K ans ids' g Hin Hf; [contradiction|].
+  simpl. destruct Hin as [Heq | Hin].
+  - inversion Heq. subst. simpl. left. rewrite Hf. reflexivity.
+  - apply in_or_app. right. apply in_or_app. right.
+    apply (IH _ _ _ _ ids'); [assumption | apply tab_fold_stable; assumption].
+Qed.
+
+Lemma C12_ok_later : forall l1 b l2, C12_ok (l1 ++ b :: l2) = true ->
+  obs_ok b = true /\ forall b', In b' l2 -> pair_ok b b' = true.
+Proof.
+  induction l1 as [|x r IH]; intros b l2 H.
+  - simpl in H. rewrite !andb_true_iff in H. destruct H as [[H1 H2] _]. split; [assumption|].
+    rewrite forallb_forall in H2. assumption.
+  - simpl in H. rewrite !andb_true_iff in H. destruct H as [_ H]. apply IH. assumption.
+Qed.
+
+(* If the oracle accepts a history in which a cookie under key id K was handed out at t,
+   then there is a generation time g (the first sighting of K) with g <= t <= g + 24 h,
+   every later request under K up to t + 48 h was answered and every request under K later
+   than g + 72 h was refused.  (First sighting is the latest instant at which K can have
+   been generated, so judging by it never blames a provider whose key is in fact older;
+   with lazy rotation - keys are made inside the call that first hands them out - it is
+   the generation time itself, which is C12_listeners_meet_oracle.) *)
+Lemma lsn_oracle_sound : forall t0 l1 t req ids l2 K,
+  C12_lsn_ok t0 (l1 ++ LObs t req true ids :: l2) = true -> In K ids ->
+  exists g, g <= t <= g + key_renewal /\
+    forall t' ans ids', In (LObs t' (Some K) ans ids') l2 ->
+      (t' <= t + two_days -> ans = true) /\ (g + key_validity < t' -> ans = false).
+Proof.
+  intros t0 l1 t req ids l2 K H HK. unfold C12_lsn_ok in H.
+  rewrite translate_app in H. cbn [lsn_translate] in H.
+  set (tab := tab_after [(1, t0)] l1) in *.
+  set (tab' := fold_left (tab_add t) ids tab) in *.
+  destruct (tab_fold_found ids t tab K HK) as [g Hg]. fold tab' in Hg.
+  set (b := BCur 0 t (tab_key K g)).
+  assert (Hb : In b (map (fun id => BCur 0 t (tab_key id (match tab_find id tab' with Some g => g | None => t end))) ids)).
+  { apply in_map_iff. exists K. split; [rewrite Hg; reflexivity | assumption]. }
+  destruct (in_split _ _ Hb) as [m1 [m2 Hm]]. rewrite Hm in H.
+  rewrite <- !app_assoc in H. rewrite !app_assoc in H.
+  rewrite <- (app_assoc _ (b :: m2) _) in H. simpl in H.
+  destruct (C12_ok_later _ _ _ H) as [Hob Hlater].
+  simpl in Hob. rewrite !andb_true_iff, !Z.leb_le in Hob. destruct Hob as [[[Ho1 Ho2] Ho3] _].
+  exists g. split; [lia|].
+  intros t' ans ids' Hin.
+  assert (Hbg : In (BGet 0 t' K (if ans then Some (tab_key K g) else None)) (m2 ++ lsn_translate tab' l2)).
+  { apply in_or_app. right. apply (translate_in_get _ _ _ _ _ ids'); assumption. }
+  specialize (Hlater _ Hbg). unfold pair_ok in Hlater. rewrite !andb_true_iff in Hlater.
+  destruct Hlater as [[_ Hl] _]. simpl in Hl. rewrite Z.eqb_refl in Hl.
+  replace ((t <? t') || true) with true in Hl by (rewrite orb_true_r; reflexivity). simpl in Hl.
+  apply andb_true_iff in Hl. destruct Hl as [Hl1 Hl2]. split.
+  - intros Hle. apply Z.leb_le in Hle. rewrite Hle in Hl1. destruct ans; [reflexivity | discriminate].
+  - intros Hgt. apply Z.ltb_lt in Hgt. rewrite Hgt in Hl2. destruct ans; [discriminate | reflexivity].
 Qed.
